@@ -29,19 +29,20 @@ CONSTANTS TraceFile
 
 Trace == ndJsonDeserialize(TraceFile)
 
-VARIABLES l, conc, bcs, hdr
+VARIABLES l, conc, bcs, hdr, desc    \* desc: the descriptor the options imply <<flg, bd, csize>>
 
-tvars == <<wvars, l, conc, bcs, hdr>>
+tvars == <<wvars, l, conc, bcs, hdr, desc>>
 
-TraceInit == Init /\ l = 1 /\ conc = 1 /\ bcs = FALSE /\ hdr = 7
+TraceInit == Init /\ l = 1 /\ conc = 1 /\ bcs = FALSE /\ hdr = 7 /\ desc = <<0, 0, <<>>>>
 
 Ev(e) == l <= Len(Trace) /\ Trace[l].ev = e /\ l' = l + 1
-Keep == UNCHANGED <<conc, bcs, hdr>>
+Keep == UNCHANGED <<conc, bcs, hdr, desc>>
 
 TrNew ==
     /\ Ev("wnew")
-    /\ ws' = "new" /\ pending' = 0 /\ accepted' = 0 /\ items' = <<>> /\ frames' = <<>> /\ failed' = FALSE
+    /\ ws' = "new" /\ pending' = 0 /\ accepted' = 0 /\ items' = <<>> /\ frames' = <<>> /\ failed' = FALSE /\ done' = FALSE
     /\ conc' = Trace[l].conc /\ bcs' = Trace[l].bcs /\ hdr' = Trace[l].hdr
+    /\ desc' = <<Trace[l].flg, Trace[l].bd, Trace[l].csize>>
 
 \* number of sink calls the items appended by this step must have caused (sequential Writer)
 PerBlock == 2 + (IF bcs THEN 1 ELSE 0)
@@ -83,12 +84,12 @@ TrCall ==
                   \/ Ok(r, Close, 0)
                   \/ Faulted(r)
                   \/ (r.err = "none" /\ CloseAgain /\ (Sequential => r.dcalls = 0))
-                  \/ (r.err # "none" /\ ws = "error" /\ UNCHANGED wvars /\ r.dsink = 0)
+                  \/ (r.err # "none" /\ ws = "error" /\ UNCHANGED wvars /\ (Sequential => r.dsink = 0))
              [] r.op = "readfrom" ->
                   \/ Ok(r, ReadFrom(r.n), r.n)
                   \/ Faulted(r)
-                  \/ (r.err # "none" /\ ReadFromLate)
-                  \/ (r.err # "none" /\ ws \in {"closed", "error"} /\ UNCHANGED wvars /\ r.dsink = 0)
+                  \/ (r.err # "none" /\ ReadFromLate /\ (Sequential => r.dsink = 0))
+                  \/ (r.err # "none" /\ ws = "error" /\ UNCHANGED wvars /\ (Sequential => r.dsink = 0))
              [] r.op = "reset" -> Reset
              [] r.op = "apply" ->
                   \/ (r.err = "none" /\ ws = "new" /\ UNCHANGED wvars)
@@ -101,13 +102,14 @@ BlocksOf(s) == SelectSeq(s, IsBlock)
 \* the k-th frame written by this Writer (k-th sink segment): archived by Reset, or the current one
 FrameNo(k) ==
     IF k <= Len(frames) THEN frames[k]
-    ELSE [items |-> items, closed |-> (ws = "closed" /\ ~failed), accepted |-> accepted]
+    ELSE [items |-> items, closed |-> done, accepted |-> accepted]
 
 TrEnd ==
     /\ Ev("wend") /\ Keep /\ UNCHANGED wvars
     /\ LET r == Trace[l]
            f == FrameNo(r.seg)
        IN  /\ r.seg <= Len(frames) + 1
+           /\ r.clean                                  \* C17(7): no panic, no runaway, every call returned
            \* a frame closed without failure is complete, strictly valid and round-trips
            /\ f.closed =>
                  /\ r.status = "ok"
@@ -115,6 +117,8 @@ TrEnd ==
                  /\ r.blocks = BlocksOf(f.items)
                  /\ r.contentLen = f.accepted
                  /\ r.consumed = r.segLen              \* nothing after the frame in its segment
+                 \* C17(2): the options (set before the first write) are in force, also after Reset
+                 /\ (~Legacy => <<r.flg, r.bd, r.csize>> = desc)
 
 TraceNext == TrNew \/ TrCall \/ TrEnd
 
